@@ -325,6 +325,53 @@ def generate(rng, tier):
             x = -x
         yield Case("f.zero", [rng.choice(ZTAGS), dec(rng.choice([0, 0, 1, 2, 3, 7, 19, 20, 64, 100])), hx(x),
                               dec(rng.choice([0, 1, -1, 5, -7, 63, -64, 1000, -1000, rng.randrange(-300, 300)]))])
+    # ---- one value rounded ONCE through every route: owning repr_round (with_precision, sub(0,-x), convert_int) and
+    #      borrowing repr_round_ref (Context::add(&0,&x), add(&x,&0), sub(&x,&0), powi(x,1), powf(x,1)); then the
+    #      producers that pre-shrink an operand by reference (mul/sqr/cubic/div/inv/sqrt/powi/exp/ln).  Input classes
+    #      from the branches of repr_round(_ref) / round_fract: unlimited precision, digits <= p (clone), digits > p
+    #      with kept digits ending in zero digits (NoOp must still normalise), all-max kept digits (carry makes B^p),
+    #      exact ties / tie+-1 / tiny / all-max discarded part, both signs, second operand shorter / longer than
+    #      2p, 3p and rhs.digits+p (the pre-shrink thresholds)
+    CTAGS = ["2Z", "2E", "2A", "10H", "10H", "10E", "10D", "10U", "10Z", "16Z", "16H", "3U"]
+    for _ in range(500 if quick else 15000):
+        tag = rng.choice(CTAGS)
+        B = int(tag[:-1])
+        pp = rng.choice([0, 1, 2, 3, 3, 4, 5, 7, 12, 19, 20, 40])
+        kd = pp if pp else rng.choice([1, 3, 8])
+        r = rng.random()
+        if r < 0.35 and kd >= 2:
+            z = rng.randrange(1, kd)                                  # kept digits end in z zero digits
+            K = rng.randrange(B ** (kd - z - 1), B ** (kd - z)) * B ** z
+        elif r < 0.5:
+            K = B ** kd - 1                                            # every rounding up carries into a new digit
+        elif r < 0.6:
+            K = B ** (kd - 1)
+        else:
+            K = rng.randrange(B ** (kd - 1), B ** kd)
+        k = rng.choice([0, 1, 1, 2, 3, 5, 17, 40])                   # discarded digits
+        if k == 0:
+            L = 0
+        else:
+            half = (B ** k) // 2
+            L = rng.choice([1, B ** k - 1, half, half + 1, max(half - 1, 1), rng.randrange(1, B ** k),
+                            rng.randrange(1, B) * B ** (k - 1), B ** (k - 1) + 1])
+        sx = K * B ** k + L
+        if rng.random() < 0.45:
+            sx = -sx
+        if rng.random() < 0.04:
+            sx = 0
+        ex = rng.choice([0, 0, 1, -1, -4, 3, 17, -17, 39, -40, 200, -200, rng.randrange(-30, 30)])
+        ny = rng.choice([1, 2, max(pp, 1), 2 * pp + 1, 3 * pp + 2, kd + k + pp + 1, rng.randrange(1, 3 * pp + 8)])
+        sy = rng.choice([rng.randrange(B ** (ny - 1), B ** ny), B ** ny - 1, B ** (ny - 1) + 1, 1])
+        if rng.random() < 0.4:
+            sy = -sy
+        if rng.random() < 0.03:
+            sy = 0
+        yield Case("f.ctx", [tag, hx(sx), dec(ex), dec(pp), hx(sy), dec(rng.choice([0, 1, -1, 5, -9, ex, -ex]))])
+    for tag, sx, ex, pp in (("10H", 12049, -4, 3), ("2Z", 0b10100001, 0, 4), ("10U", 99951, 0, 2), ("16Z", 0x1200f, -2, 3),
+                            ("10E", 1250, 0, 2), ("10E", 1350, 0, 2), ("3U", 3 ** 5 * 7 + 1, 0, 2), ("2E", 0b110001, 3, 2)):
+        yield Case("f.ctx", [tag, hx(sx), dec(ex), dec(pp), hx(7), dec(0)])
+        yield Case("f.ctx", [tag, hx(-sx), dec(-ex), dec(pp), hx(-7001), dec(-2)])
     # ---- the same float / rational by several routes
     for _ in range(200 if quick else 6000):
         nd = rng.choice([1, 2, 3, 9, 19, 20, 38, 39, 40, 60])
